@@ -96,6 +96,7 @@ package ggql
 //@   ensures[locks-balanced] held == old(held)
 
 //@ func (*Root).resolveReflect
+//@   check accumulate {C06}
 //@   props C12 C03
 //@   check lock {C12}
 //@   check panic {C03}
